@@ -162,6 +162,17 @@ def run(ck: Checker):
             path = path_avoiding(cfg, [cfg.entry], {p_.id}, avoid=joins, edge_ok=lambda e: not (e.src in dead and e.kind == dead[e.src]))
             ck.ob('C20-1', f, p_.ast, path is None, 'the end signal of the log reader is given only after the child was observed dead: its queue feeder has flushed every record by then' if path is None else 'the parent ends its log reader while the child may still be flushing records: the last records are never handled, and a child with more unflushed log data than the pipe holds cannot exit (join hangs)', path=fmt_path(cfg, path) if path else '')
     ck.need(n1 >= 1, 'no parent-side end signal of the log reader (end-marker put / child-ended flag) found')
+    # the object finaliser `_finalize` also ends the reader; it is exempt above because it can only run when the process
+    # object is collected, which the helper threads prevent while the child lives.  That holds only for a finaliser
+    # WITHOUT an exit priority: one with a priority is also run by multiprocessing's exit function -- before the exiting
+    # process joins its children -- and then ends the reader of a child (a grandchild of the top process) that is alive
+    fin_calls = [c for c in ast.walk(st0.node) if isinstance(c, ast.Call) and (dotted(c.func) or '').endswith('Finalize') and len(c.args) >= 2 and (dotted(c.args[1]) or norm_text(c.args[1])).endswith('_finalize')]
+    fin_m = cls.method('_finalize') if cls.has_method('_finalize') else None
+    ends_reader = fin_m is not None and any(isinstance(c, ast.Call) and method_of(c)[1] in ('set', 'put') for c in ast.walk(fin_m.node))
+    for fc in fin_calls:
+        ep = kwarg(fc, 'exitpriority')
+        okp = ep is None or is_none(ep) or not ends_reader
+        ck.ob('C20-1', st0, fc, okp, 'the object finaliser that can end the log reader has no exit priority: it runs only when the process object is collected' if okp else f'the finaliser that ends the log reader is registered with exitpriority={norm_text(ep)}: multiprocessing runs it when this process exits, before joining its children — the reader of a child that is still alive (a grandchild that was not joined explicitly) is ended, its later records are never read, and once they exceed a pipe buffer it can never exit')
     if flag_attr:
         check_flag_reader(ck, 'C20-1', rl0, flag_param, next((k for k, e in rl_bind.items() if (dotted(e) if not isinstance(e, str) else e) == LOGQ), None))
     # ------------------------------------------------------------------ C20-2
